@@ -208,7 +208,9 @@ def main():
             check(var, None)
     check_templates_expand()
     for bad in (['{date', '{description}', '{amount}'], ['date', '{description}', '{amount}'], ['{date}', '{description}', '{amount}', ''],
-                ['{date}{description}', '{amount}'], ['{da te}', '{description}', '{amount}'], ['{}', '{description}', '{amount}', '{date}']):
+                ['{date}{description}', '{amount}'], ['{da te}', '{description}', '{amount}'], ['{}', '{description}', '{amount}', '{date}'],
+                # a token followed by stray text is not a token
+                ['{date}junk', '{description}', '{amount}'], ['{date}', '{description} x', '{amount}'], ['{date}', '{description}', '{amount}}']):
         check(bad, None)
     heads = ['Date', 'Description', 'Amount', 'Location', 'Memo', 'Payment Date', 'Payee', 'Charge Amount', 'Transaction Date', 'Merchant Name',
              'Debit', 'Notes', 'Posting Date', 'Payment Description', 'City']
